@@ -243,6 +243,16 @@ def main(tier, seed):
     chk.extra["pipeline_whatif_inherited_shared_violates"] = rwp.violated
     if not rwp.violated:
         raise Inconclusive("Pipeline.tla what-if (inherited GARBLE_SHARED not forgotten) is no longer rejected")
+    # -debugdir in the process-tree model: claim, artifact check (-a), per-package artifacts stored by the children,
+    # restore after the go command.  What-if "no -a although artifacts are missing" must break PDebugComplete.
+    rwd = tlc("PipelineMC", "Pipeline-mutant-noforce.cfg", timeout=900)
+    chk.add_tlc(rwd)
+    chk.extra["pipeline_whatif_no_forced_rebuild_violates"] = rwd.violated
+    if rwd.violated != "PDebugComplete":
+        raise Inconclusive(f"Pipeline.tla what-if (no -a with missing -debugdir artifacts) is no longer rejected by PDebugComplete: {rwd.violated}")
+    if tier == "thorough":
+        chk.add_tlc(tlc_must_pass("PipelineMC", "Pipeline-debugdir.cfg", timeout=3000))
+        chk.add_tlc(tlc_must_pass("PipelineMC", "Pipeline-debugdir-warm.cfg", timeout=3000))
 
     tool = make_linker_cache(work)
     world = World(work, tool)
@@ -267,6 +277,7 @@ def main(tier, seed):
         cells = chosen
     chk.extra["cells_run"] = len(cells)
     lock = threading.Lock()
+    pipeline_budget = [4 if tier == "quick" else 24]
 
     def run_cell(idx_c):
         idx, c = idx_c
@@ -355,6 +366,15 @@ def main(tier, seed):
                 if missing:
                     chk.violation(dict(witness, kind="debugdir-incomplete"), dict(files, **{"missing.json": json.dumps(missing)}),
                                   what=f"owned -debugdir incomplete after {args}: {missing[:4]}")
+            # -- B1: the whole process tree of a successful -debugdir build against Pipeline.tla (claim, artifact check,
+            # artifacts stored before each tool run, restore of this command's own keys, PDebugComplete at the end)
+            if cell["cmd"] == "build" and cell["dbgpre"] in ("absent", "empty", "owned") and r.returncode == 0 and cell["outcome"] == "ok" \
+                    and cell["inherited"] != "foreign" and pipeline_budget[0] > 0:
+                pipeline_budget[0] -= 1
+                try:
+                    validate_pipeline(chk, events, src, sb, label=f"debugdir-{cell['dbgpre']}-{cell['artifacts']}", cold_gk=False)
+                except Inconclusive as ex:
+                    log(f"pipeline validation of cell {idx} inconclusive: {ex}")
             # -- B1: events vs the spec's expectation (model drift is not a verdict)
             exp_exit = expect["exit"]
             got_exit = "ok" if r.returncode == 0 else "error"
